@@ -522,3 +522,134 @@ Proof.
   intros H. apply in_map_iff in H. destruct H as [[k m'] [<- Hin]].
   pose proof table_consts_exact_gen as Ht. unfold table_consts_exact in Ht. rewrite forallb_forall in Ht. exact (Ht _ Hin).
 Qed.
+
+(* ---------- the checked evaluator is the unchecked one where it is defined ---------- *)
+Lemma ret_mono f r : ret true f = Some r -> ret false f = Some r.
+Proof. intros H. apply ret_true in H. destruct H as [-> _]. reflexivity. Qed.
+
+Lemma binF_mono zd o a b r : binF true zd o a b = Some r -> binF false zd o a b = Some r.
+Proof. destruct o; cbn [binF]; try apply ret_mono; auto. destruct (zd && PrimFloat.eqb b PrimFloat.zero)%bool; [discriminate | apply ret_mono]. Qed.
+
+Lemma unF_mono o a r : unF true o a = Some r -> unF false o a = Some r.
+Proof. destruct o; cbn [unF]; try apply ret_mono; auto. Qed.
+
+Lemma powF_mono c a r : powF true c a = Some r -> powF false c a = Some r.
+Proof. destruct c; cbn [powF]; apply ret_mono. Qed.
+
+Lemma fsum_from_mono l : forall acc r, fsum_from true acc l = Some r -> fsum_from false acc l = Some r.
+Proof.
+  induction l as [|e t IH]; intros acc r; cbn [fsum_from]; [auto|].
+  intros H. apply obind_some in H. destruct H as [a [Ha H]]. rewrite (ret_mono _ _ Ha). cbn [obind]. now apply IH.
+Qed.
+
+Section Mono.
+  Variables (callT callU : string -> list pfloat -> list pfloat -> option pfloat) (pe : string -> option pfloat) (zd : bool).
+  Hypothesis Hcall : forall f xs ys r, callT f xs ys = Some r -> callU f xs ys = Some r.
+
+  Local Notation eST := (evalSF true callT pe zd).
+  Local Notation eVT := (evalVF true callT pe zd).
+  Local Notation eSU := (evalSF false callU pe zd).
+  Local Notation eVU := (evalVF false callU pe zd).
+
+  Lemma body_mono : (forall v x y a b r, eVT v x y a b = Some r -> eVU v x y a b = Some r)
+                    /\ (forall s x y r, eST s x y = Some r -> eSU s x y = Some r).
+  Proof.
+    apply expr_mutind.
+    - intros x y a b r H. exact H.
+    - intros x y a b r H. exact H.
+    - intros s IH x y a b r H. rewrite evalVF_VConstS in *. now apply IH.
+    - intros o v1 IH1 v2 IH2 x y a b r H. rewrite evalVF_VBin in *. apply obind2_some in H. destruct H as [r1 [r2 [H1 [H2 H]]]].
+      rewrite (IH1 _ _ _ _ _ H1), (IH2 _ _ _ _ _ H2). cbn [obind2]. now apply binF_mono.
+    - intros o v1 IH1 x y a b r H. rewrite evalVF_VUn in *. apply obind_some in H. destruct H as [r1 [H1 H]].
+      rewrite (IH1 _ _ _ _ _ H1). cbn [obind]. now apply unF_mono.
+    - intros v1 IH1 c x y a b r H. rewrite evalVF_VPowC in *. apply obind_some in H. destruct H as [r1 [H1 H]].
+      rewrite (IH1 _ _ _ _ _ H1). cbn [obind]. now apply powF_mono.
+    - intros c l IHl r0 IHr v1 IH1 v2 IH2 x y a b r H. rewrite evalVF_VSel in *. apply obind2_some in H.
+      destruct H as [p [q [Hp [Hq H]]]]. rewrite (IHl _ _ _ _ _ Hp), (IHr _ _ _ _ _ Hq). cbn [obind2].
+      destruct (cmpF c p q); [now apply IH1 | now apply IH2].
+    - intros v IH x y r H. rewrite evalSF_SSum in *. apply obind_some in H. destruct H as [l [Hl H]].
+      rewrite (oseq_map2_mono _ (fun a b => eVU v x y a b) x y l (fun a b r => IH x y a b r) Hl). cbn [obind].
+      now apply fsum_from_mono.
+    - intros v IH x y r H. rewrite evalSF_SAmax in *. apply obind_some in H. destruct H as [l [Hl H]].
+      rewrite (oseq_map2_mono _ (fun a b => eVU v x y a b) x y l (fun a b r => IH x y a b r) Hl). exact H.
+    - intros u IHu v IHv x y r H. rewrite evalSF_SCountNe in *. apply obind_some in H. destruct H as [l [Hl H]].
+      rewrite (oseq_map2_mono (fun a b => obind2 (eVT u x y a b) (eVT v x y a b) (fun p q => Some (p, q)))
+                 (fun a b => obind2 (eVU u x y a b) (eVU v x y a b) (fun p q => Some (p, q))) x y l); [exact H| |exact Hl].
+      intros a b pq Hpq. apply obind2_some in Hpq. destruct Hpq as [p [q [Hp [Hq Hpq]]]].
+      rewrite (IHu _ _ _ _ _ Hp), (IHv _ _ _ _ _ Hq). exact Hpq.
+    - intros x y r H. exact H.
+    - intros q x y r H. change (eST (SConstQ q) x y) with (obind (litF q) (ret true)) in H.
+      change (eSU (SConstQ q) x y) with (obind (litF q) (ret false)). destruct (litF q) as [f|]; [|discriminate]. now apply ret_mono.
+    - intros n x y r H. change (eST (SConstName n) x y) with (obind (cvalF n) (ret true)) in H.
+      change (eSU (SConstName n) x y) with (obind (cvalF n) (ret false)). destruct (cvalF n) as [f|]; [|discriminate]. now apply ret_mono.
+    - intros p x y r H. change (eST (SParam p) x y) with (obind (pe p) (ret true)) in H.
+      change (eSU (SParam p) x y) with (obind (pe p) (ret false)). destruct (pe p) as [f|]; [|discriminate]. now apply ret_mono.
+    - intros o s1 IH1 s2 IH2 x y r H. rewrite evalSF_SBin in *. apply obind2_some in H. destruct H as [r1 [r2 [H1 [H2 H]]]].
+      rewrite (IH1 _ _ _ H1), (IH2 _ _ _ H2). cbn [obind2]. now apply binF_mono.
+    - intros o s1 IH1 x y r H. rewrite evalSF_SUn in *. apply obind_some in H. destruct H as [r1 [H1 H]].
+      rewrite (IH1 _ _ _ H1). cbn [obind]. now apply unF_mono.
+    - intros s1 IH1 c x y r H. rewrite evalSF_SPowC in *. apply obind_some in H. destruct H as [r1 [H1 H]].
+      rewrite (IH1 _ _ _ H1). cbn [obind]. now apply powF_mono.
+    - intros f u IHu v IHv x y r H. rewrite evalSF_SCall in *. apply obind2_some in H. destruct H as [xs [ys [Hxs [Hys H]]]].
+      rewrite (oseq_map2_mono _ (fun a b => eVU u x y a b) x y xs (fun a b r => IHu x y a b r) Hxs).
+      rewrite (oseq_map2_mono _ (fun a b => eVU v x y a b) x y ys (fun a b r => IHv x y a b r) Hys). cbn [obind2]. now apply Hcall.
+  Qed.
+End Mono.
+
+Lemma add_constF_mono c v v' : add_constF true c v = Some v' -> add_constF false c v = Some v'.
+Proof.
+  unfold add_constF. destruct (cvalF c) as [e|]; [|discriminate].
+  apply oseq_map_mono. intros a r. apply ret_mono.
+Qed.
+
+Lemma dec_runF_mono prog : forall e vs, dec_runF true prog e = Some vs -> dec_runF false prog e = Some vs.
+Proof.
+  induction prog as [|st prog IH]; intros e vs; cbn [dec_runF]; [discriminate|].
+  destruct st as [p c|p c|ps]; auto;
+    (destruct (flookup p e) as [v|]; [|discriminate]; destruct (add_constF true c v) as [v'|] eqn:Ea; [|discriminate];
+     rewrite (add_constF_mono c v v' Ea); apply IH).
+Qed.
+
+Lemma wrapF_mono callT callU dp dprog pe m x y r :
+  (forall f xs ys r, callT f xs ys = Some r -> callU f xs ys = Some r) ->
+  wrapF true callT dp dprog pe m x y = Some r -> wrapF false callU dp dprog pe m x y = Some r.
+Proof.
+  intros Hc. unfold wrapF, eval_bodyF, dec_applyF.
+  pose proof (proj2 (body_mono callT callU pe (m_njit m) Hc) (m_body m)) as B.
+  destruct (m_avoid_zero m); [|apply B].
+  destruct (dec_runF true dprog (combine dp [x; y])) as [vs|] eqn:Ed; [|discriminate].
+  rewrite (dec_runF_mono dprog _ vs Ed). destruct vs as [|x' [|y' [|z vs]]]; try discriminate. apply B.
+Qed.
+
+Lemma call_fuelF_mono t dp dprog fuel : forall f xs ys r,
+  call_fuelF true t dp dprog fuel f xs ys = Some r -> call_fuelF false t dp dprog fuel f xs ys = Some r.
+Proof.
+  induction fuel as [|n IH]; intros f xs ys r; cbn [call_fuelF]; [discriminate|].
+  destruct (lookup_ir f t) as [m|]; [|discriminate]. apply wrapF_mono. exact IH.
+Qed.
+
+Theorem metric_fltc_flt m x y f : metric_fltc m x y = Some f -> metric_flt m x y = Some f.
+Proof.
+  unfold metric_fltc, metric_flt, evalFlt_wrapped. apply wrapF_mono. apply call_fuelF_mono.
+Qed.
+
+(* ---------- metric_rnd_shift at the exact rationals is metric_rnd ---------- *)
+Lemma dec_runRs_cvalR rnd prog : forall e, dec_runRs cvalR rnd prog e = dec_runR rnd prog e.
+Proof.
+  induction prog as [|st prog IH]; intros e; cbn [dec_runRs dec_runR]; [reflexivity|].
+  destruct st as [p c|p c|ps]; auto; (destruct (vlookup p e) as [v|]; [|reflexivity]; apply IH).
+Qed.
+
+Lemma call_fuelRs_cvalR rnd t dp dprog fuel :
+  call_fuelRs cvalR rnd t dp dprog fuel = call_fuelR rnd t dp dprog fuel.
+Proof.
+  induction fuel as [|n IH]; extensionality f; extensionality x; extensionality y; cbn [call_fuelRs call_fuelR]; [reflexivity|].
+  destruct (lookup_ir f t) as [m|]; [|reflexivity]. rewrite IH. unfold wrapRs, wrapR, dec_applyRs, dec_applyR.
+  now rewrite dec_runRs_cvalR.
+Qed.
+
+Theorem metric_rnd_shift_cvalR rnd m x y : metric_rnd_shift cvalR rnd m x y = metric_rnd rnd m x y.
+Proof.
+  unfold metric_rnd_shift, metric_rnd, evalRnd_wrapped_shift, evalRnd_wrapped, evalRnd_wrapped_with.
+  rewrite call_fuelRs_cvalR. unfold wrapRs, wrapR, dec_applyRs, dec_applyR. now rewrite dec_runRs_cvalR.
+Qed.
